@@ -89,17 +89,21 @@ type Config struct {
 	ModuleList      bool     `json:"module_list,omitempty"`
 	HTTPS           bool     `json:"https,omitempty"`
 	Providers       []string `json:"providers,omitempty"`
-	LegacyRedirect  bool     `json:"legacy_redirect,omitempty"`  // Modules.RoutesRedirectOnUnauthed=true instead of ResponseOnUnauthed (module routes only)
-	StockDetails    bool     `json:"stock_details,omitempty"`    // providers use the library's own GoogleUserDetails / FacebookUserDetails (the in-process provider answers their user-info endpoints)
-	NoCookieStore   bool     `json:"no_cookie_store,omitempty"`  // Storage.CookieState left nil (documented as needed for remember-me only)
-	Localizer       string   `json:"localizer,omitempty"`        // "untranslated": a Localizer whose catalog has no entry for the request's language (answers "" as its contract says; the library falls back to the default texts)
-	ExtraRulePages  []string `json:"extra_rule_pages,omitempty"` // the application appends a validation rule of its own (for a field nobody is required to send) to these pages' rulesets
-	UpstreamLookup  int      `json:"upstream_lookup,omitempty"`  // an application middleware in front of expire/remember that looks the user up (request log, data injector): 1 CurrentUser, 2 LoadCurrentUser
-	MiddlewareEarly bool     `json:"middleware_early,omitempty"` // expire/remember Middleware(ab) constructed before the instance is configured, applied afterwards
-	NilEmptyState   bool     `json:"nil_empty_state,omitempty"`  // the session store answers (nil, nil) for a browser without session values (LoadClientState supports that)
-	SetupsFirst     bool     `json:"setups_first,omitempty"`     // the 2FA / expire Setup() calls run before ab.Init()
-	Mailer          string   `json:"mailer,omitempty"`           // "" harness mailbox | "log" defaults.LogMailer | "smtp" defaults.SMTPMailer against a loopback server
-	ShippedLog      bool     `json:"shipped_logger,omitempty"`   // defaults.Logger instead of the capturing logger
+	LegacyRedirect  bool     `json:"legacy_redirect,omitempty"`   // Modules.RoutesRedirectOnUnauthed=true instead of ResponseOnUnauthed (module routes only)
+	NoRememberStore bool     `json:"no_remember_store,omitempty"` // the application's storer does not implement authboss.RememberingServerStorer (only honoured without the remember module)
+	NoArbitraryUser bool     `json:"no_arbitrary_user,omitempty"` // the application's user type does not implement authboss.ArbitraryUser
+	PlainRegValues  bool     `json:"plain_reg_values,omitempty"`  // the application's body reader returns register values that implement UserValuer only (no ArbitraryValuer)
+	WriterWrap      string   `json:"writer_wrap,omitempty"`       // an application middleware right behind LoadClientStateMiddleware wraps the response writer (compression, metrics): "underlying" exposes it through UnderlyingResponseWriter(), "unwrap" through Unwrap() only
+	StockDetails    bool     `json:"stock_details,omitempty"`     // providers use the library's own GoogleUserDetails / FacebookUserDetails (the in-process provider answers their user-info endpoints)
+	NoCookieStore   bool     `json:"no_cookie_store,omitempty"`   // Storage.CookieState left nil (documented as needed for remember-me only)
+	Localizer       string   `json:"localizer,omitempty"`         // "untranslated": a Localizer whose catalog has no entry for the request's language (answers "" as its contract says; the library falls back to the default texts)
+	ExtraRulePages  []string `json:"extra_rule_pages,omitempty"`  // the application appends a validation rule of its own (for a field nobody is required to send) to these pages' rulesets
+	UpstreamLookup  int      `json:"upstream_lookup,omitempty"`   // an application middleware in front of expire/remember that looks the user up (request log, data injector): 1 CurrentUser, 2 LoadCurrentUser
+	MiddlewareEarly bool     `json:"middleware_early,omitempty"`  // expire/remember Middleware(ab) constructed before the instance is configured, applied afterwards
+	NilEmptyState   bool     `json:"nil_empty_state,omitempty"`   // the session store answers (nil, nil) for a browser without session values (LoadClientState supports that)
+	SetupsFirst     bool     `json:"setups_first,omitempty"`      // the 2FA / expire Setup() calls run before ab.Init()
+	Mailer          string   `json:"mailer,omitempty"`            // "" harness mailbox | "log" defaults.LogMailer | "smtp" defaults.SMTPMailer against a loopback server
+	ShippedLog      bool     `json:"shipped_logger,omitempty"`    // defaults.Logger instead of the capturing logger
 
 	Accounts []AccountSpec `json:"accounts"`
 	Browsers int           `json:"browsers"`
@@ -305,6 +309,7 @@ func NewWorld(cfg Config) (w *World, err error) {
 	w = &World{Cfg: cfg, B: &Backend{}, OAuthCodes: map[string]OAuthIdentity{}}
 	w.Store = NewStore(w.B)
 	w.Store.OneTime = cfg.OneTimeTOTP
+	w.Store.NoArb = cfg.NoArbitraryUser
 	w.Store.EmailPID = !cfg.Username
 	w.Mail = &Mailbox{B: w.B}
 	w.SMS = &SMSOutbox{B: w.B}
@@ -393,6 +398,9 @@ func NewWorld(cfg Config) (w *World, err error) {
 		return nil
 	}
 	ab.Config.Storage.Server = w.Store
+	if cfg.NoRememberStore && !cfg.Has("remember") && cfg.Middleware != "remember" {
+		ab.Config.Storage.Server = storeNoRemember{w.Store}
+	}
 	ab.Config.Storage.SessionState = StateRW{Session: true, B: w.B, Resolve: resolve, NilWhenEmpty: cfg.NilEmptyState}
 	if !cfg.NoCookieStore || cfg.Has("remember") || cfg.Middleware == "remember" {
 		ab.Config.Storage.CookieState = StateRW{Session: false, B: w.B, Resolve: resolve}
@@ -431,7 +439,7 @@ func NewWorld(cfg Config) (w *World, err error) {
 	for _, page := range cfg.ExtraRulePages {
 		br.Rulesets[page] = append(br.Rulesets[page], defaults.Rules{FieldName: "app_note", MaxLength: 500})
 	}
-	ab.Config.Core.BodyReader = otpAdapter{br}
+	ab.Config.Core.BodyReader = otpAdapter{inner: br, plainReg: cfg.PlainRegValues}
 	ab.Config.Core.Hasher = FaultHasher{Inner: authboss.NewBCryptHasher(bcrypt.MinCost), B: w.B}
 
 	if len(cfg.Providers) > 0 {
@@ -506,6 +514,25 @@ func NewWorld(cfg Config) (w *World, err error) {
 	return w, nil
 }
 
+// Response-writer wrappers an application may put between LoadClientStateMiddleware and the
+// authboss middlewares; the library documents both ways of exposing the wrapped writer.
+type underlyingOnly struct{ http.ResponseWriter }
+
+func (u underlyingOnly) UnderlyingResponseWriter() http.ResponseWriter { return u.ResponseWriter }
+
+type unwrapOnly struct{ http.ResponseWriter }
+
+func (u unwrapOnly) Unwrap() http.ResponseWriter { return u.ResponseWriter }
+
+// storeNoRemember is the same database for an application that never wrote the remember-token
+// methods: they are shadowed by methods of another signature, so the library's assertion to
+// authboss.RememberingServerStorer fails.
+type storeNoRemember struct{ *Store }
+
+func (storeNoRemember) AddRememberToken(struct{})  {}
+func (storeNoRemember) DelRememberTokens(struct{}) {}
+func (storeNoRemember) UseRememberToken(struct{})  {}
+
 // untranslated is a Localizer without a translation for anything the visitor's language needs.
 type untranslated struct{}
 
@@ -549,14 +576,30 @@ func (e errWrap) Wrap(h func(w http.ResponseWriter, r *http.Request) error) http
 
 // otpAdapter maps the otp module's page name onto the login page the shipped
 // body reader knows (the shipped reader rejects "otplogin").
-type otpAdapter struct{ inner authboss.BodyReader }
+type otpAdapter struct {
+	inner    authboss.BodyReader
+	plainReg bool
+}
 
 func (o otpAdapter) Read(page string, r *http.Request) (authboss.Validator, error) {
 	if page == "otplogin" {
 		page = "login"
 	}
-	return o.inner.Read(page, r)
+	v, err := o.inner.Read(page, r)
+	if err == nil && o.plainReg && page == "register" {
+		if uv, ok := v.(authboss.UserValuer); ok {
+			return plainUserValues{uv}, nil
+		}
+	}
+	return v, err
 }
+
+// plainUserValues exposes exactly authboss.UserValuer: an application reader without arbitrary values.
+type plainUserValues struct{ inner authboss.UserValuer }
+
+func (p plainUserValues) Validate() []error   { return p.inner.Validate() }
+func (p plainUserValues) GetPID() string      { return p.inner.GetPID() }
+func (p plainUserValues) GetPassword() string { return p.inner.GetPassword() }
 
 func (w *World) findUserDetails(ctx context.Context, cfg oauth2.Config, tok *oauth2.Token) (map[string]string, error) {
 	code := strings.TrimPrefix(tok.AccessToken, "at:")
@@ -764,6 +807,17 @@ func (w *World) buildHandler() {
 				return
 			}
 			next.ServeHTTP(rw, r)
+		})
+	}
+	if w.Cfg.WriterWrap != "" {
+		next := app
+		kind := w.Cfg.WriterWrap
+		app = http.HandlerFunc(func(rw http.ResponseWriter, r *http.Request) {
+			if kind == "unwrap" {
+				next.ServeHTTP(unwrapOnly{rw}, r)
+			} else {
+				next.ServeHTTP(underlyingOnly{rw}, r)
+			}
 		})
 	}
 	inner := app
